@@ -27,6 +27,8 @@ type reporter struct {
 	dirty    bool      // something was reported on this path
 	stream   string    // PRNG stream of the case ("" = "history")
 	missKind string    // kind reported by checkSeq for a missing record ("" = synced-record-missing)
+	pathSet  bool      // set while checkSeq reports a missing record: the reader started behind journal record pathLo
+	pathLo   int
 }
 
 func (rp *reporter) child(p cutPlan) *reporter {
@@ -71,6 +73,13 @@ func (rp *reporter) violation(m *model, kind string, idx int, what string, extra
 	}
 	key := kind
 	t := m.taintFor(idx, kind)
+	if t == nil && rp.pathSet {
+		// a record missing from a sequential reader: stray bytes in an earlier
+		// file that the reader had to pass explain it as well
+		if t = m.taintOnPath(rp.pathLo, idx); t != nil {
+			rp.c.Count("missing_records_explained_by_stray_bytes_in_an_earlier_file", 1)
+		}
+	}
 	if t != nil {
 		switch t.Cause {
 		case "short-tail":
@@ -237,6 +246,8 @@ func (rp *reporter) checkSeq(m *model, reader string, got []canon, foreign []str
 		if rp.missKind != "" {
 			kind = rp.missKind
 		}
+		rp.pathSet, rp.pathLo = true, lo
+		defer func() { rp.pathSet = false }()
 		rp.violation(m, kind, k, fmt.Sprintf("%s returned %d records and %s, without %s whose sync had returned nil and whose file is still there", reader, len(got), es, r.desc()), nil)
 		return n
 	}
